@@ -30,7 +30,7 @@ Get(f, k, d) == IF k \in DOMAIN f THEN f[k] ELSE d
 EmptyFn      == [x \in {} |-> 0]
 
 NoLast == [ev |-> "none", o |-> "", res |-> "ok", pres |-> "ok", outOk |-> TRUE, keep |-> TRUE,
-           lenOk |-> TRUE, n |-> 0, t |-> "", v |-> <<>>, pv |-> <<>>, fits |-> TRUE, some |-> FALSE,
+           lenOk |-> TRUE, n |-> 0, t |-> "", v |-> <<>>, pv |-> <<>>, fits |-> TRUE, fitsUp |-> TRUE, some |-> FALSE, hasb |-> FALSE, bv |-> <<>>, bpv |-> <<>>,
            how |-> "", txt |-> <<>>]
 Lst(ev, o, res, pres) == [NoLast EXCEPT !.ev = ev, !.o = o, !.res = res, !.pres = pres]
 
@@ -194,17 +194,22 @@ Pos(o, t, res, v) ==
       pv == PosOf(ob.st, ob.bs)
   IN  /\ Live(o) /\ ob.kind \in SeekKinds
       /\ last' = [Lst("pos", o, res, IF FitsType(pv, t) THEN "any" ELSE "err") EXCEPT
-                    !.t = t, !.v = v, !.pv = pv, !.fits = FitsType(pv, t)]
+                    !.t = t, !.v = v, !.pv = pv, !.fits = FitsType(pv, t),
+                    \* the position rounded up to a block boundary fits as well (from_block_byte of the `cipher`
+                    \* crate multiplies the NEXT block's index by the block size in T before subtracting)
+                    !.fitsUp = FitsType(NMulInt(CtrOf(ob.st), ob.bs), t)]
       /\ UNCHANGED <<objs, ks, ksbad, dbg>>
 
 (* StreamCipherCore::remaining_blocks() *)
-Rem(o, some, v, res) ==
+Rem(o, some, v, hasb, bv, res) ==
   LET ob == objs[o]
       bk == BaseKind(ob.kind)
       pv == IF bk \in SeekKinds /\ NLe(CtrOf(ob.st), MaxBlocks(bk, ob.bs)) THEN NSub(MaxBlocks(bk, ob.bs), CtrOf(ob.st)) ELSE <<>>
   IN  /\ Live(o)
       /\ last' = [Lst("rem", o, res, "ok") EXCEPT !.some = some, !.v = v, !.pv = pv,
-                                                  !.fits = (bk \in SeekKinds)]
+                                                  !.fits = (bk \in SeekKinds),
+                                                  \* StreamCipherSeekCore::get_block_pos(), read in the same step
+                                                  !.hasb = hasb /\ bk \in SeekKinds, !.bv = bv, !.bpv = IF bk \in SeekKinds THEN CtrOf(ob.st) ELSE <<>>]
       /\ UNCHANGED <<objs, ks, ksbad, dbg>>
 
 (* StreamCipherSeekCore::set_block_pos on a core *)
